@@ -176,6 +176,12 @@ def check(ctx: Ctx) -> None:
     from ..idioms import check_falsy_zero
     check_falsy_zero(ctx, 'C19.f', [SH, CE], floor=3, plain_float=True)
     _check_affine(ctx)
+    from ..idioms import check_parameters_used
+    check_parameters_used(ctx, 'C19.j', [SH, CE], floor=40)
+    from ..idioms import check_options_forwarded
+    check_options_forwarded(ctx, 'C19.k', [SH, CE], floor=30)
+    from ..idioms import check_no_stale_derived
+    check_no_stale_derived(ctx, 'C19.l', [SH, CE], floor=15)
     _check_snapshots(ctx)
     _check_back_rotation(ctx)
     _check_add_user(ctx)
